@@ -441,8 +441,11 @@ func runC05(p *core.Prog, r *core.Report) {
 				if onT, _, okc := core.CondRelation(ifi.Cond, func(v ssa.Value) bool {
 					c, ok := v.(*ssa.Call)
 					return ok && core.CommonCallee(c.Common()) == getState
-				}, func(v ssa.Value) bool { _, ok := v.(*ssa.Const); return ok }); okc && onT == core.OrdEQ && ifi.Block().Succs[0] == w.Instr.Block() {
-					ok = true
+				}, func(v ssa.Value) bool { _, ok := v.(*ssa.Const); return ok }); okc && onT == core.OrdEQ {
+					// the advance is reachable only over the `== Completed` edge (an `||` with another condition does not qualify)
+					if _, only := core.OnlyViaEdge(mf, core.Edge{From: ifi.Block(), Idx: 0}, func(x ssa.Instruction) bool { return x == w.Instr }); only {
+						ok = true
+					}
 				}
 			})
 			if !ok {
